@@ -754,13 +754,20 @@ class Header:
         primary_hdr = pfits.PrimaryHdr(filename)
         subint_hdr = pfits.SubintHdr(filename)
 
+        # Plain floats in MHz; the reader delivers channels in descending frequency
+        # order (ascending files are flipped), so label them accordingly.
+        foff = float(subint_hdr.freqs.foff.to_value("MHz"))
+        fch1 = float(subint_hdr.freqs.fch1.to_value("MHz"))
+        if foff > 0:
+            fch1 += (subint_hdr.nchans - 1) * foff
+            foff = -foff
         header: dict[str, Any] = {}
         hdr_update = {
             "filename": filename,
             "data_type": "filterbank",
             "nchans": subint_hdr.nchans,
-            "foff": subint_hdr.freqs.foff,
-            "fch1": subint_hdr.freqs.fch1,
+            "foff": foff,
+            "fch1": fch1,
             "nbits": subint_hdr.nbits,
             "tsamp": subint_hdr.tsamp,
             "tstart": primary_hdr.tstart.mjd,
